@@ -1,4 +1,5 @@
 \* events (v8): complete up to the last handled head WITHOUT NoLag and QuietSub (it re-reads the range from the database); only ReorgPrio is assumed
+\* measured (8 TLC workers shared over 3 runs): 21140 distinct / 52526 generated states, depth 18, 5.0s
 CONSTANTS NSubs = 1 NConn = 1 InitLen = 2 MaxLen = 4 MaxTag = 4 MaxReverts = 1 MaxL1 = 0 MaxPc = 0 MaxTx = 2 MaxGw = 0 MaxRecv = 0 MaxTicks = 0 MaxBack = 3 MaxGot = 6
   Ver = 8 Kinds <- KEvents StartAtL1 = 0 NoLag = FALSE QuietSub = FALSE ReorgPrio = TRUE TeeStage = FALSE Window = TRUE FixL1None = FALSE FixL1Order = FALSE BlockIds <- BidsSmall
 INIT Init
